@@ -150,7 +150,8 @@ def renderPtrB : Nat → Segs → Nat → Nat → Nat → String × Nat
       let up : String × Nat :=
         if n = 0 then ("", body.2) else
         if ek = 7 then
-          let r := if pc = 0 then ("E", body.2) else renderPtrB fuel m sg (s + dw) body.2
+          -- (an element without pointers has no first pointer: an error, which costs one unit of the budget like any other pointer shown)
+          let r := if pc = 0 then (if body.2 = 0 then ("~", 0) else ("E", body.2 - 1)) else renderPtrB fuel m sg (s + dw) body.2
           ("^" ++ r.1 ++ "," ++ (if dw = 0 then "0" else bytesHex m sg (8 * s) 8), r.2)
         else if 2 ≤ ek ∧ ek ≤ 5 then
           ("^S{" ++ bytesHex m sg (8 * s) (elemBytes ek) ++ "|}" ++ (if ek = 5 then bytesHex m sg (8 * s) 8 else "0"), body.2)
